@@ -27,7 +27,7 @@ Proof. unfold end_driver. cbn [last set]. rewrite !last_fold; reflexivity. Qed.
 Lemma inuse_drop_entry m k f s : inuse (drop_entry m k f s) = inuse s. Proof. unfold drop_entry. now destruct (alookup k m). Qed.
 Lemma inuse_fold {A} (g : st -> A -> st) (l : list A) : (forall s a, inuse (g s a) = inuse s) -> forall s, inuse (fold_left g l s) = inuse s.
 Proof. intros Hg. induction l as [|a l IH]; intros s; cbn [fold_left]; [reflexivity|]. now rewrite IH, Hg. Qed.
-Lemma inuse_end_driver h s : inuse (end_driver h s) = inuse s.
+Lemma inuse_end_driver h s : inuse (end_driver h s) = if fix31 (fx s) then [] else inuse s.
 Proof. unfold end_driver. cbn [inuse set]. rewrite !inuse_fold; reflexivity. Qed.
 
 Definition is_start (e : ev) : bool := match e with Start _ _ | Alloc _ _ => true | _ => false end.
@@ -44,7 +44,7 @@ Lemma In_rem_sub i a l : In i (rem a l) -> In i l. Proof. rewrite In_rem. tauto.
 Lemma inuse_step s e : is_start e = false -> forall i, In i (inuse (step s e)) -> In i (inuse s).
 Proof.
   intros He i. destruct e; try discriminate; unfold step, enqueue;
-  repeat first [ (intros H; exact H) | rewrite inuse_end_driver | rewrite inuse_drop_entry | progress cbn [inuse set updop] | progress cbv zeta
+  repeat first [ (intros H; exact H) | (intros []) | rewrite inuse_end_driver | rewrite inuse_drop_entry | progress cbn [inuse set updop] | progress cbv zeta
                | (intros H; apply In_rem_sub in H; revert H)
                | match goal with |- context [match ?x with _ => _ end] => destruct x end ].
 Qed.
@@ -75,6 +75,7 @@ Proof.
     all: rewrite next_msgid_fresh; [| rewrite (j_last s Hj); lia | intros H; apply (j_inuse s Hj) in H; lia].
     all: try destruct (is_running s); constructor; cbn [last inuse ops set]; unfold getop; cbn [ops set].
     all: try (rewrite app_length, (j_last s Hj); cbn; lia).
+    all: try (match goal with |- context [fix31] => intros i H; destruct (fix31 (fx s)); [apply In_rem_sub in H|]; destruct H as [<-|H]; [lia|apply (j_inuse s Hj) in H; lia|lia|apply (j_inuse s Hj) in H; lia] end).
     all: try (intros i [<-|H]; [lia|apply (j_inuse s Hj) in H; lia]).
     all: intros o c H; apply nth_app_last in H as [H|[-> ->]]; [exact (j_mids s Hj o c H)|cbn [o_mid set]; rewrite (j_last s Hj); lia].
   - pose proof (step_sext s e K) as (_ & Hfw & _). constructor.
